@@ -13,7 +13,14 @@ func New(seed uint64) *R { return &R{s: seed} }
 
 // FromEnv seeds from VERIF_SEED (default 1), mixed with a per-stream salt.
 func FromEnv(salt uint64) *R {
-	return New(Seed()*0x9E3779B97F4A7C15 + salt)
+	s := Seed()
+	if s == 1 {
+		return New(0x9E3779B97F4A7C15 + salt) // the default stream
+	}
+	// any other seed: an unrelated stream (s*gamma + salt would be the default stream shifted by s-1 draws)
+	m := New(s ^ 0xD1B54A32D192ED03)
+	m.U64()
+	return New(m.U64() + salt)
 }
 
 func Seed() uint64 {
